@@ -344,7 +344,11 @@ void ObserverAction::step(CoreParams const& params, CoreStateHost& state) const
             // bracket: rounding only for linear propagation; in a magnetic field the step to a
             // boundary intercept is accurate to the driver's configured delta_intersection
             j["rL_chordlo"] = chord * (1 - 1e-9) - 1e-12 - sh_->chord_tol;
-            j["rL_chordlo2"] = chord * (1 - 0.02) - 1e-12 - sh_->chord_tol;  // scope of F-MSC-1
+            // scope of F-MSC-1 (MSC lateral displacement d added at the end of the CURVED geometric path g,
+            // d perpendicular to the final direction, not to the chord): |chord| <= g + d with g^2 + d^2 <= t^2,
+            // i.e. at most sqrt(2) t.  (An excess of 4.5 % was seen for a 5 T field turning a positron by ~1 rad
+            // within one step; the first version of this scope, 2 %, came from 1 T runs.)
+            j["rL_chordlo2"] = chord * 0.70710678 - 1e-12 - sh_->chord_tol;
             {
                 char buf[96];
                 std::snprintf(buf, sizeof(buf), "%.17g/%.17g", sim.step_length(), chord);
